@@ -6,11 +6,17 @@ Every run:
   TRANSLATE      tools/py2coq.py regenerates reference_wavelength and Material.attenuation_coefficient;
   coq-run/C20    Tie.v (finite facts by vm_compute on the regenerated tables, lifted through the
                  unbounded lemmas of coq/C20/Proofs.v; attenuation law on the regenerated term over R),
+                 Fast.v (lookups with the file scan guarded by a membership test, PROVED equal to the
+                 model for every string; what the correspondence evaluates),
                  Properties.v (the property theorems + Print Assumptions), Corr.v (comparison functions);
   correspondence EXHAUSTIVE: every row of the three tables and near-miss names derived from every
-                 real name go through the real Atom.for_isotope / ScatteringParams.for_isotope; the
+                 real name (tools/harness/c20_names.py: what may stand before / after / inside a valid
+                 name) go through the real Atom.for_isotope / ScatteringParams.for_isotope; the
                  observations are compared with the model INSIDE Coq; attenuation on random
-                 densities / wavelengths / units against the regenerated function evaluated over Q.
+                 densities / wavelengths (float and INTEGER dtypes, m ... fm) / units against the
+                 regenerated function evaluated over Q and against the closed 1/v law (Corr.check_law).
+  A changed return type of the package never ends the run: the name is reported (unrepresentable-result)
+  or, if a whole part fails, the part becomes a broken obligation and search() runs.
 """
 import concurrent.futures
 import json
@@ -40,9 +46,9 @@ TRANSLATE = {'modules': [
      'functions': ['Material.attenuation_coefficient'], 'requires': ['Verif.C20.SemExt']},
 ]}
 GEN_FILES = ['GenTables.v']
-# order: the table obligations, the comparison functions (so that the correspondence can run even if a later
+# order: the table obligations, the guarded (fast) lookups proved equal to the model, the comparison functions (so that the correspondence can run even if a later
 # proof breaks), the regression pin, the attenuation proof, the property theorems
-RUN_FILES = ['Tie.v', 'Corr.v', 'Pin.v', 'TieAtt.v', 'Properties.v']
+RUN_FILES = ['Tie.v', 'Fast.v', 'Corr.v', 'Pin.v', 'TieAtt.v', 'Properties.v']
 COQ_TIMEOUT = 900
 TRUSTED = [
     'tools/csv2coq.py (CSV lines -> Coq string literals; fail-closed outside printable ASCII; its row split is '
@@ -56,6 +62,7 @@ TRUSTED = [
     'unit algebra, .to(unit=), dtype promotion',
     'coq/C20/Spec.v periodic_table (independent knowledge used for "z of the right element")',
     'coq/C20/RefTables.v + tools/corpus/C20/*.csv: pinned snapshot of the tables (regression pin, not part of the property)',
+    'tools/harness/c20_names.py (generator of near-miss names; input generation only), '
     'tools/harness/c20_lookup.py, c20_atten.py, kernels_impl.py (exact serialisation of observations); scipp itself '
     "resolves the unit names 'fm', 'barn', 'Da' the observations are compared with",
     'functools.lru_cache is not modelled (repeated queries are exercised by the correspondence)',
@@ -145,13 +152,13 @@ def build_queries(rng, tabs, tier):
         if t == 'mass':
             cls = c20_names.near_misses(n, rng, 1)[len(nm):]
             if tier == 'quick':
-                # quick tier: 5 of the ~15 fixed variants + 2 class variants (seeded choice) for each of the 3557
-                # isotope-mass names; all fixed + always + 1 per class for the 371 + 118 scattering / element names
-                nm = rng.sample(nm, 5) + rng.sample(cls, min(2, len(cls)))
+                # quick tier: 5 of the ~15 fixed variants + 3 class variants (seeded choice) for each of the 3557
+                # isotope-mass names; all fixed + always + 2 per class for the 371 + 118 scattering / element names
+                nm = rng.sample(nm, 5) + rng.sample(cls, min(3, len(cls)))
             else:
                 nm = nm + cls
         else:
-            nm = c20_names.near_misses(n, rng, 1 if tier == 'quick' else None)
+            nm = c20_names.near_misses(n, rng, 2 if tier == 'quick' else None)
         for kind, v in nm:
             add(v, kind, n)
     uni_src = [n for n, _ in real]
@@ -551,8 +558,8 @@ def correspondence(ctx):
                 'name (tools/harness/c20_names.py: digit(s) / blank kinds / punctuation and control characters / a tail '
                 'starting with a non-letter AFTER the name — "H2", "He3", "H\\t", "C+", "He-3", "U,1" —, blank / punctuation / '
                 'digit BEFORE it, mass number and symbol swapped or separated — "He3", "He-3", "3-He" —, a non-letter inside '
-                'the symbol — "H e"); quick tier: all fixed + the always-members + 1 seeded pool member of every class for '
-                'the scattering/element names, a seeded 5 fixed + 2 class variants per isotope-mass name; thorough: whole '
+                'the symbol — "H e"); quick tier: all fixed + the always-members + 2 seeded pool members of every class for '
+                'the scattering/element names, a seeded 5 fixed + 3 class variants per isotope-mass name; thorough: whole '
                 'pools for scattering/element names, fixed + always + 1 per class for isotope-mass names; a seeded sample '
                 'with non-ASCII look-alikes; through Atom.for_isotope, ScatteringParams.for_isotope and '
                 '_parse_isotope_name, in shuffled order, plus repeated queries (lru_cache); '
@@ -643,10 +650,14 @@ LEVEL_TEXT = ('Proof: on the tables regenerated from the CSV files of this tree,
               'the model of ScatteringParams.for_isotope / Atom.for_isotope returns exactly that row\'s fields (decimal strings '
               'verbatim, unit of the column, None where blank, z = position of the element in the periodic table, mass only for '
               'isotope rows, weight only where the table has one); for ALL strings a successful lookup is answered from the row '
-              'whose first field is literally the query and every other string is rejected (induction over arbitrary tables). '
+              'whose first field is literally the query and every other string is rejected (induction over arbitrary tables); '
+              'in particular every string not of the shape (optional mass number)(letters) — a blank, newline, sign, comma '
+              'or digit after / before / inside a valid name — is rejected by both entry points (C20_malformed_name_rejected). '
               'The regenerated Material.attenuation_coefficient equals n(sigma_s + sigma_a lambda/1.7982 A) in 1/length for '
               'arbitrary units (over R). The lookup model is a hand model tied to the code by an EXHAUSTIVE correspondence '
-              '(all 371+118+3557 rows, near misses of every name) compared inside Coq.')
+              '(all 371+118+3557 rows, near misses of every name incl. the classes of tools/harness/c20_names.py) compared inside '
+              'Coq; every attenuation observation is compared inside Coq with the regenerated function over Q and, independently, '
+              'with the closed law (Run.Corr.check_law), for float64/float32/int64/int32 wavelengths in m ... fm.')
 LEVEL_NOTE = ('Trusted: Coq kernel; csv2coq/py2coq generators; hand model of the string primitives and of float(); Sem/Val.v model of '
               'scipp units; std-lib real-number axioms for the attenuation theorem only (lookup theorems are axiom-free). '
               'A pinned snapshot of the tables (tools/corpus/C20) is compared on every run: an intended data update must refresh it.')
